@@ -76,6 +76,65 @@ func serverIsLocal(v ssa.Value) bool {
 	return isNamedType(t, "Local")
 }
 
+// exposedSurface: rpc name -> where it is registered, for every network-facing registration of the binaries' package.
+func exposedSurface(p *an.Prog, r *an.Run, verbose bool) (map[string]string, int, int) {
+	regs := Registrations(p)
+	exposed := map[string]string{}
+	nMain := 0
+	for _, reg := range regs {
+		top := reg.Fn
+		for top.Parent() != nil {
+			top = top.Parent()
+		}
+		inMain := top.Pkg != nil && top.Pkg.Pkg.Path() == an.Module
+		names, ok := regNames(reg)
+		where := an.FuncName(reg.Fn) + " at " + p.Pos(reg.Call.Pos())
+		if !inMain {
+			if verbose {
+				r.Note("registration outside the binaries' package (not restricted): %s -> %v", where, names)
+			}
+			continue
+		}
+		nMain++
+		if !ok {
+			if verbose {
+				r.Undec("surface", where, reg.Call.Pos(), "the registration's prefix or allow-list is not constant: the exposed names cannot be enumerated")
+			}
+			continue
+		}
+		if serverIsLocal(reg.ServerVal) {
+			if verbose {
+				r.Note("in-process registration (jsonrpc2.Local, not network-facing): %s -> %v", where, names)
+			}
+			continue
+		}
+		for _, n := range names {
+			exposed[n] = where
+		}
+	}
+	return exposed, len(regs), nMain
+}
+
+// checkSurfaceClosed: the per-endpoint rules of a property are written for the documented endpoints. An RPC name exposed
+// beyond them (a new pool_transfer, an exported helper picked up by the catch-all registration) is an endpoint none of
+// those rules has looked at: the property is not decided for it. Shared by every property that quantifies over "every
+// registered endpoint" (C01, C04, C05, C06, C07, C10); C16 states it for its own sake.
+func checkSurfaceClosed(p *an.Prog, r *an.Run) {
+	exposed, _, _ := exposedSurface(p, r, false)
+	want := map[string]bool{}
+	for _, n := range documentedSurface {
+		want[n] = true
+	}
+	var extra []string
+	for n, w := range exposed {
+		if !want[n] {
+			extra = append(extra, n+" (registered in "+w+")")
+		}
+	}
+	sort.Strings(extra)
+	r.Check(len(extra) == 0 && len(exposed) > 0, "surface", "extra", token.NoPos, "no RPC name beyond the documented surface is exposed", "the binaries expose RPC names that are not part of the documented surface, so the per-endpoint rules of this property have not judged them: %s", strings.Join(extra, "; "))
+}
+
 func runC16(p *an.Prog, r *an.Run, tier string) {
 	checkFreshParams(p, r)
 	// what a connection answers is what Server.Handle made of this very request (shared with C14/C15)
@@ -640,7 +699,14 @@ func checkNoReadaheadLoss(p *an.Prog, r *an.Run) {
 				continue
 			}
 			region := regionFuncs(p, fn)
-			d := p.DerivesIn(fn, 2, c.Common().Args[0])
+			src := c.Common().Args[0]
+			if mi, ok := src.(*ssa.MakeInterface); ok {
+				src = mi.X
+			}
+			if bc, ok := src.(*ssa.Call); ok && (an.IsFunc(an.CallObj(bc), "bufio", "NewReader") || an.IsFunc(an.CallObj(bc), "bufio", "NewReaderSize")) {
+				src = bc.Call.Args[0] // look through a buffering layer (judged below)
+			}
+			d := p.DerivesIn(fn, 2, src)
 			if !d.HasParam(recv) {
 				continue // per-call reader
 			}
@@ -661,7 +727,30 @@ func checkNoReadaheadLoss(p *an.Prog, r *an.Run) {
 			r.Analysed(name)
 			dec := c.Value()
 			kept := false
+			perCallBuf := false
 			var why []string
+			// a buffering reader put between the connection and the decoder for this call only (to skip a BOM, say)
+			// reads ahead on its own: what it holds when the call returns is gone, whatever the decoder's remainder says
+			for _, rf := range region {
+				for _, bc := range an.Calls(rf, false) {
+					bf := an.CallObj(bc)
+					if !(an.IsFunc(bf, "bufio", "NewReader") || an.IsFunc(bf, "bufio", "NewReaderSize")) || bc.Value() == nil {
+						continue
+					}
+					keptBuf := false
+					for _, ref := range *bc.Value().Referrers() {
+						if st, ok := ref.(*ssa.Store); ok && st.Val == bc.Value() {
+							if root, _ := an.RootPath(st.Addr); p.Resolve(root) == ssa.Value(recv) {
+								keptBuf = true
+							}
+						}
+					}
+					if !keptBuf {
+						perCallBuf = true
+						why = append(why, "a bufio reader is made for this call at "+p.Pos(bc.Pos())+" and dropped with it: the bytes it read ahead of the decoder (up to its buffer size) never reach the next message")
+					}
+				}
+			}
 			// (a) decoder stored into the receiver
 			for _, ref := range *dec.Referrers() {
 				if st, ok := ref.(*ssa.Store); ok && st.Val == dec {
@@ -798,7 +887,7 @@ func checkNoReadaheadLoss(p *an.Prog, r *an.Run) {
 					}
 				}
 			}
-			r.Check(kept, "no-readahead-loss", name, c.Pos(), "the decoder's read-ahead survives the call", "%s builds a json.Decoder on the connection's stream for one message and drops it: whatever it read past that message (a second message that arrived in the same read) is lost; %s", name, strings.Join(why, "; "))
+			r.Check(kept && !perCallBuf, "no-readahead-loss", name, c.Pos(), "the decoder's read-ahead survives the call", "%s builds a json.Decoder on the connection's stream for one message and drops it: whatever it read past that message (a second message that arrived in the same read) is lost; %s", name, strings.Join(why, "; "))
 		}
 	}
 	r.Floor("stream-decoders", n, 1)
@@ -1631,6 +1720,43 @@ func checkGorillaSingleWriter(p *an.Prog, r *an.Run) {
 					if an.Dominates(io, u) {
 						bad = append(bad, "in "+an.FuncName(m)+" the deferred connection I/O at "+p.Pos(io.Pos())+" is registered before the deferred Unlock at "+p.Pos(u.Pos())+": deferred calls run last-in-first-out, so it executes after the mutex has been released and a second writer can interleave its frame")
 					}
+				}
+			}
+		}
+		// ... and so does every other function of the codec package that writes to a connection (a ping handler, a
+		// keep-alive goroutine): WriteControl is the one write gorilla allows next to a data write; WriteMessage /
+		// WriteJSON / NextWriter outside the write lock cut a message in flight short or make gorilla panic
+		isMethod := map[*ssa.Function]bool{}
+		for i := 0; i < gc.NumMethods(); i++ {
+			if m := p.SSA.FuncValue(gc.Method(i)); m != nil {
+				isMethod[m] = true
+			}
+		}
+		for _, fn := range p.Repo {
+			top := fn
+			for top.Parent() != nil {
+				top = top.Parent()
+			}
+			if top.Pkg == nil || !strings.HasSuffix(top.Pkg.Pkg.Path(), "jsonrpc2/ws/gorilla") || isMethod[fn] || p.IsTestFunc(fn) {
+				continue
+			}
+			li := an.Locksets(fn, nil)
+			for _, c := range an.Calls(fn, false) {
+				f := an.CallObj(c)
+				if f == nil || an.RecvNamed(f) == nil || an.RecvNamed(f).Obj().Name() != "Conn" || an.RecvNamed(f).Obj().Pkg() == nil || an.RecvNamed(f).Obj().Pkg().Path() != "github.com/gorilla/websocket" {
+					continue
+				}
+				if !(f.Name() == "WriteMessage" || f.Name() == "WriteJSON" || f.Name() == "NextWriter" || f.Name() == "WritePreparedMessage") {
+					continue
+				}
+				held := false
+				for k, w := range li.Before[c.(ssa.Instruction)] {
+					if w && strings.HasSuffix(string(k), ".muWrite") {
+						held = true
+					}
+				}
+				if !held {
+					bad = append(bad, "conn."+f.Name()+" in "+an.FuncName(fn)+" at "+p.Pos(c.Pos())+" without the codec's write lock: it runs next to the data writes of WriteMessage (use WriteControl for control frames, or take muWrite)")
 				}
 			}
 		}
